@@ -139,9 +139,10 @@ def evaluate(trace, M, labels, param, fw, res: Result):
                     if d > bins[-1] + 1e-9:
                         continue
                     k = int(np.searchsorted(bins, d, side='left'))  # smallest k with d <= bins[k]
-                    near = np.where(np.abs(bins - d) < 1e-9)[0]
-                    for e in near:
-                        tie_bins.update({int(e), int(e) + 1})
+                    if b != li[ai]:  # the atom paired with itself (d = 0) belongs to bin 0 only, it is no edge tie
+                        near = np.where(np.abs(bins - d) < 1e-9)[0]
+                        for e in near:
+                            tie_bins.update({int(e), int(e) + 1})
                     if k < len(bins):
                         exp[st, sym][k] += 1
                         npairs += 1
